@@ -521,21 +521,22 @@ func (e *Engine) scanGlobals() {
 func (e *Engine) LoadContracts(verifDir string) error {
 	for _, p := range e.sortedModulePkgs() {
 		rel := strings.TrimPrefix(strings.TrimPrefix(p.PkgPath, ModulePath), "/")
-		path := filepath.Join(e.RepoDir, rel, "zz_contracts_verif.go")
-		mirror := filepath.Join(verifDir, "contracts", "mirror", rel, "zz_contracts_verif.go")
-		use := path
-		if _, err := os.Stat(path); err != nil {
-			if _, err2 := os.Stat(mirror); err2 != nil {
-				continue
+		// contract files of a package: zz_contracts_verif.go and zz_contracts_<topic>_verif.go
+		files, _ := filepath.Glob(filepath.Join(e.RepoDir, rel, "zz_contracts*_verif.go"))
+		if len(files) == 0 {
+			files, _ = filepath.Glob(filepath.Join(verifDir, "contracts", "mirror", rel, "zz_contracts*_verif.go"))
+			if len(files) > 0 {
+				e.MirrorUsed = append(e.MirrorUsed, rel)
 			}
-			use = mirror
-			e.MirrorUsed = append(e.MirrorUsed, rel)
 		}
-		cf, err := ParseContractFile(use, p.Name, false)
-		if err != nil {
-			return err
+		sort.Strings(files)
+		for _, use := range files {
+			cf, err := ParseContractFile(use, p.Name, false)
+			if err != nil {
+				return err
+			}
+			e.addContractFile(cf)
 		}
-		e.addContractFile(cf)
 	}
 	assumed, _ := filepath.Glob(filepath.Join(verifDir, "contracts", "assumed", "*.gvc"))
 	sort.Strings(assumed)
